@@ -48,6 +48,17 @@ class AngularModel:
         self.f_init = repo.method("AngularGrid", "__init__")
         self.f_get = repo.method("AngularGrid", "_get_degree_and_size")
         self.f_load = repo.method("AngularGrid", "_load_precomputed_angular_grid")
+        # the resolver is read with its small private helpers inlined (a guarded look-up moved into a module-level function is
+        # still the same look-up); helpers called with a tuple target -- the dispatch accessors -- are left to the table rules
+        import copy
+        from gridlint import inline
+        helpers = {g.name: g.node for g in repo.funcs.values()
+                   if g.module == "angular" and g.cls is None and g.parent is None and not g.is_lambda and isinstance(g.node, ast.FunctionDef)}
+        inl = inline.inline_calls(self.f_get.node, helpers)
+        if ast.dump(inl) != ast.dump(self.f_get.node):
+            f2 = copy.copy(self.f_get)
+            f2.node = inl
+            self.f_get = f2
         self.chains = {}
         self.var = {}   # chain name -> role -> local variable bound by the dispatch
         legacy = {"degrees": "dict_degrees", "npoints": "dict_npoints", "package": "file_path", "cache": "cache_dict"}
